@@ -93,3 +93,183 @@ Proof.
     try apply parse_base128_total; try apply check_integer_total; try apply parse_oid_total;
     try apply parse_printable_total; try apply parse_gentime_total.
 Qed.
+
+(* ------------------------------------------------------------------ the lax relaxations *)
+
+(* the three documented malformations, as predicates on the content octets *)
+Definition nonminimal_int (c : bytes) : Prop :=
+  exists b0 b1 r, c = b0 :: b1 :: r /\ ((bz b0 = 0 /\ bz b1 < 128) \/ (bz b0 = 255 /\ 128 <= bz b1)).
+Definition printable_8bit (c : bytes) : Prop :=
+  forallb (is_printable true true) c = false /\ (could_be_iso8859_1 c = true \/ could_be_t61 c = true).
+
+Lemma check_integer_lax c : check_integer true c = check_integer false c \/ nonminimal_int c.
+Proof.
+  unfold check_integer. destruct c as [|b0 [|b1 r]]; [left; reflexivity|left; reflexivity|].
+  destruct (((bz b0 =? 0) && (bz b1 <? 128)) || ((bz b0 =? 255) && (128 <=? bz b1))) eqn:E; [|left; reflexivity].
+  right. exists b0, b1, r. split; [reflexivity|].
+  apply orb_true_iff in E. destruct E as [E|E]; apply andb_true_iff in E; destruct E as [E1 E2]; [left|right]; lia.
+Qed.
+Lemma check_integer_mono c u : check_integer false c = Ok u -> check_integer true c = Ok u.
+Proof.
+  unfold check_integer. destruct c as [|b0 [|b1 r]]; auto. destruct (_ || _); [discriminate|]. auto.
+Qed.
+
+Lemma parse_oid_lax b c : parse_oid b true c = parse_oid b false c \/ c = [].
+Proof. destruct c; [right; reflexivity|left; reflexivity]. Qed.
+Lemma parse_oid_mono b c l : parse_oid b false c = Ok l -> parse_oid b true c = Ok l.
+Proof. destruct c; [discriminate|auto]. Qed.
+
+Lemma parse_printable_lax c : parse_printable true c = parse_printable false c \/ printable_8bit c.
+Proof.
+  unfold parse_printable, printable_8bit. destruct (forallb (is_printable true true) c); [left; reflexivity|]. cbn [negb].
+  destruct (could_be_iso8859_1 c); [right; auto|]. destruct (could_be_t61 c); [right; auto|]. left; reflexivity.
+Qed.
+Lemma parse_printable_mono c s : parse_printable false c = Ok s -> parse_printable true c = Ok s.
+Proof. unfold parse_printable. destruct (forallb _ c); [auto|discriminate]. Qed.
+
+(* results under the relaxation, when the strict parser refuses: what the value then is *)
+Lemma parse_printable_lax_value c s :
+  parse_printable true c = Ok s -> s = c \/ (could_be_iso8859_1 c = true /\ s = iso8859_1_to_utf8 c).
+Proof.
+  unfold parse_printable. destruct (forallb _ c); [intros H; inversion H; auto|]. cbn [negb].
+  destruct (could_be_iso8859_1 c); [intros H; inversion H; auto|].
+  destruct (could_be_t61 c); [intros H; inversion H; auto|discriminate].
+Qed.
+
+(* ------------------------------------------------------------------ fork versus upstream (D2 in OIDs, D3) *)
+
+Definition subid_boundary (pre : bytes) : Prop := pre = [] \/ bz (last pre x00) < 128.
+(* a sub-identifier of the OID content begins with the octet 0x80 *)
+Definition oid_leading80 (c : bytes) : Prop := exists pre s, c = pre ++ x80 :: s /\ subid_boundary pre.
+
+Lemma b128_loop_last v d : forall k acc n r,
+  b128_loop v k acc d = Ok (n, r) -> exists h, d = h ++ r /\ h <> [] /\ bz (last h x00) < 128.
+Proof.
+  induction d as [|b t IH]; intros k acc n r H; cbn [b128_loop] in H; [discriminate|].
+  destruct (k =? 5)%nat; [discriminate|]. destruct (_ && _ && _); [discriminate|].
+  destruct (Z.ltb_spec (bz b) 128).
+  - destruct (_ >? _); [discriminate|]. inversion H; subst. exists [b]. repeat split; [discriminate|assumption].
+  - apply IH in H. destruct H as (h & -> & Hn & Hl). exists (b :: h). repeat split; [discriminate|].
+    destruct h; [congruence|exact Hl].
+Qed.
+
+Lemma last_app_r {A} (pre h : list A) d : h <> [] -> last (pre ++ h) d = last h d.
+Proof.
+  intros Hn. induction pre as [|x pre IH]; [reflexivity|]. cbn [app].
+  assert (Hne : pre ++ h <> []) by (destruct pre; [exact Hn|discriminate]).
+  destruct (pre ++ h) as [|y t]; [congruence|]. exact IH.
+Qed.
+
+Lemma boundary_app pre h : h <> [] -> bz (last h x00) < 128 -> subid_boundary (pre ++ h).
+Proof. intros Hn Hl. right. rewrite last_app_r by exact Hn. exact Hl. Qed.
+
+Lemma oid_rest_variant fuel : forall d pre, subid_boundary pre ->
+  oid_rest (parse_base128 Upstream) fuel d = oid_rest (parse_base128 Fork) fuel d \/
+  (exists p s, d = p ++ x80 :: s /\ subid_boundary (pre ++ p)).
+Proof.
+  induction fuel as [|f IH]; intros d pre Hpre; [destruct d; left; reflexivity|].
+  destruct d as [|b r]; [left; reflexivity|]. cbn [oid_rest].
+  destruct (parse_base128_variant (b :: r)) as [E|(s & E)].
+  - rewrite E. destruct (parse_base128 Fork (b :: r)) as [[n r']| | | | |] eqn:EF; try (left; reflexivity).
+    cbn [bind fst snd]. unfold parse_base128 in EF. apply b128_loop_last in EF. destruct EF as (h & Eh & Hn & Hl).
+    destruct (IH r' (pre ++ h) (boundary_app _ _ Hn Hl)) as [E2|(p & s & -> & Hb)].
+    + rewrite E2. left; reflexivity.
+    + right. exists (h ++ p), s. rewrite Eh. rewrite <- app_assoc. split; [reflexivity|]. rewrite app_assoc. exact Hb.
+  - right. exists [], s. rewrite app_nil_r. split; [exact E|exact Hpre].
+Qed.
+
+Lemma parse_oid_variant lax c :
+  parse_oid (parse_base128 Upstream) lax c = parse_oid (parse_base128 Fork) lax c \/ oid_leading80 c.
+Proof.
+  unfold parse_oid. destruct c as [|b r]; [left; reflexivity|].
+  destruct (parse_base128_variant (b :: r)) as [E|(s & E)].
+  - rewrite E. destruct (parse_base128 Fork (b :: r)) as [[n r']| | | | |] eqn:EF; try (left; reflexivity).
+    cbn [bind fst snd]. unfold parse_base128 in EF. apply b128_loop_last in EF. destruct EF as (h & Eh & Hn & Hl).
+    destruct (oid_rest_variant (length (b :: r)) r' h (boundary_app [] _ Hn Hl)) as [E2|(p & s & -> & Hb)].
+    + rewrite E2. left; reflexivity.
+    + right. exists (h ++ p), s. rewrite Eh, <- app_assoc. split; [reflexivity|exact Hb].
+  - right. exists [], s. split; [exact E|left; reflexivity].
+Qed.
+
+Lemma oid_rest_up_fork fuel : forall d l, oid_rest (parse_base128 Upstream) fuel d = Ok l -> oid_rest (parse_base128 Fork) fuel d = Ok l.
+Proof.
+  induction fuel as [|f IH]; intros d l; [destruct d; auto|]. destruct d as [|b r]; [auto|]. cbn [oid_rest].
+  intros H. apply bind_ok in H. destruct H as ([n r'] & E & H). apply parse_base128_up_fork in E. rewrite E. cbn [bind fst snd] in *.
+  apply bind_ok in H. destruct H as (l' & E2 & H). apply IH in E2. rewrite E2. exact H.
+Qed.
+Lemma parse_oid_up_fork lax c l : parse_oid (parse_base128 Upstream) lax c = Ok l -> parse_oid (parse_base128 Fork) lax c = Ok l.
+Proof.
+  unfold parse_oid. destruct c as [|b r]; [auto|]. intros H. apply bind_ok in H. destruct H as ([n r'] & E & H).
+  apply parse_base128_up_fork in E. rewrite E. cbn [bind fst snd] in *.
+  apply bind_ok in H. destruct H as (l' & E2 & H). apply oid_rest_up_fork in E2. rewrite E2. exact H.
+Qed.
+
+(* D3: a '.' directly after the fourteen digits YYYYMMDDhhmmss *)
+Definition gentime_fraction (c : bytes) : Prop := exists p s, c = p ++ x2e :: s /\ length p = 14%nat.
+
+Lemma two_digits_some d v r : two_digits d = Some (v, r) -> exists a b, d = a :: b :: r.
+Proof.
+  unfold two_digits. destruct d as [|a [|b t]]; try discriminate. destruct (_ && _); [|discriminate].
+  intros H; inversion H; subst. eauto.
+Qed.
+Lemma four_digits_some d v r : four_digits d = Some (v, r) -> exists a b c e, d = a :: b :: c :: e :: r.
+Proof.
+  unfold four_digits. destruct (two_digits d) as [[hi r1]|] eqn:E1; [|discriminate].
+  destruct (two_digits r1) as [[lo r2]|] eqn:E2; [|discriminate]. intros H; inversion H; subst.
+  apply two_digits_some in E1. apply two_digits_some in E2. destruct E1 as (a & b & ->). destruct E2 as (c & e & ->). eauto 6.
+Qed.
+
+Lemma parse_fraction_variant d : parse_fraction true d = parse_fraction false d \/ (exists s, d = x2e :: s).
+Proof.
+  unfold parse_fraction. destruct d as [|p r]; [left; reflexivity|].
+  destruct (Z.eqb_spec (bz p) 46) as [E|E]; [|left; reflexivity].
+  right. exists r. f_equal. apply bz_inj. rewrite E. reflexivity.
+Qed.
+
+Lemma parse_gentime_variant c : parse_gentime true c = parse_gentime false c \/ gentime_fraction c.
+Proof.
+  unfold parse_gentime, parse_time_layout.
+  destruct (four_digits c) as [[year r0]|] eqn:E0; [|left; reflexivity].
+  destruct (two_digits r0) as [[mon r1]|] eqn:E1; [|left; reflexivity].
+  destruct (two_digits r1) as [[day r2]|] eqn:E2; [|left; reflexivity].
+  destruct (two_digits r2) as [[hh r3]|] eqn:E3; [|left; reflexivity].
+  destruct (two_digits r3) as [[mi r4]|] eqn:E4; [|left; reflexivity].
+  destruct (two_digits r4) as [[ss r5]|] eqn:E5; [|left; reflexivity].
+  destruct (parse_fraction_variant r5) as [->|(s & ->)]; [left; reflexivity|].
+  right. apply four_digits_some in E0. destruct E0 as (a0 & a1 & a2 & a3 & ->).
+  apply two_digits_some in E1. destruct E1 as (b0 & b1 & ->).
+  apply two_digits_some in E2. destruct E2 as (c0 & c1 & ->).
+  apply two_digits_some in E3. destruct E3 as (d0 & d1 & ->).
+  apply two_digits_some in E4. destruct E4 as (e0 & e1 & ->).
+  apply two_digits_some in E5. destruct E5 as (f0 & f1 & ->).
+  exists [a0; a1; a2; a3; b0; b1; c0; c1; d0; d1; e0; e1; f0; f1], s. split; reflexivity.
+Qed.
+
+Lemma parse_fraction_fork_up d r : parse_fraction false d = Some r -> parse_fraction true d = Some r.
+Proof. unfold parse_fraction. destruct d as [|p t]; [auto|]. destruct (bz p =? 46); [discriminate|auto]. Qed.
+
+Lemma parse_gentime_fork_up c t : parse_gentime false c = Ok t -> parse_gentime true c = Ok t.
+Proof.
+  unfold parse_gentime, parse_time_layout.
+  destruct (four_digits c) as [[year r0]|]; [|auto].
+  destruct (two_digits r0) as [[mon r1]|]; [|auto].
+  destruct (two_digits r1) as [[day r2]|]; [|auto].
+  destruct (two_digits r2) as [[hh r3]|]; [|auto].
+  destruct (two_digits r3) as [[mi r4]|]; [|auto].
+  destruct (two_digits r4) as [[ss r5]|]; [|auto].
+  destruct (parse_fraction false r5) as [[ns r6]|] eqn:E; [|discriminate].
+  rewrite (parse_fraction_fork_up _ _ E). auto.
+Qed.
+
+(* ------------------------------------------------------------------ relating two leaf sets *)
+
+(* lax only relaxes *)
+Lemma leaves_lax_mono v :
+  (forall d, l_b128 (leaves_of v false) d = l_b128 (leaves_of v true) d) /\
+  (forall c u, l_int_check (leaves_of v false) c = Ok u -> l_int_check (leaves_of v true) c = Ok u) /\
+  (forall c l, l_oid (leaves_of v false) c = Ok l -> l_oid (leaves_of v true) c = Ok l) /\
+  (forall c s, l_printable (leaves_of v false) c = Ok s -> l_printable (leaves_of v true) c = Ok s) /\
+  (forall c, l_gentime (leaves_of v false) c = l_gentime (leaves_of v true) c).
+Proof.
+  destruct v; cbn; repeat split; auto using check_integer_mono, parse_oid_mono, parse_printable_mono.
+Qed.
